@@ -42,7 +42,7 @@ func c17LookupGen(t *rapid.T) c17LookupCase {
 	case "reflect-struct", "node-struct":
 		bases = []string{"int8", "int32", "int64", "uint16", "uint64", "string", "boolean"}
 	case "rs", "reflect-slice", "node-slice":
-		bases = append(bases, "decimal64")
+		bases = append(bases, "decimal64", "binary")
 	}
 	for i := 0; i < nk; i++ {
 		c.KeyTypes = append(c.KeyTypes, rapid.SampledFrom(bases).Draw(t, "keytype"))
@@ -56,6 +56,8 @@ func c17LookupGen(t *rapid.T) c17LookupCase {
 				tuple[j] = c.Entries[rapid.IntRange(0, len(c.Entries)-1).Draw(t, "from")][j]
 			} else if c.KeyTypes[j] == "string" {
 				tuple[j] = rapid.SampledFrom([]string{"a", "b", "ab", "B", "10", "9", "z", "é", "a b", "a,b"}).Draw(t, "strkey")
+			} else if c.KeyTypes[j] == "binary" {
+				tuple[j] = rapid.SampledFrom([]string{"YQ==", "YWI=", "YWJj", "AAE=", "AA==", "YWJk"}).Draw(t, "binkey")
 			} else if c.KeyTypes[j] == "decimal64" {
 				// neighbours that differ in the eighth fraction digit only
 				tuple[j] = rapid.SampledFrom([]string{"1.00000011", "1.00000012", "1.00000013", "1.0000001", "1", "-1.00000011", "0.00000001", "0", "2.5"}).Draw(t, "deckey")
@@ -78,6 +80,8 @@ func c17LookupGen(t *rapid.T) c17LookupCase {
 			if rapid.IntRange(0, 3).Draw(t, "fresh") == 0 {
 				if c.KeyTypes[j] == "string" {
 					tuple[j] = rapid.SampledFrom([]string{"a", "b", "c", "nope"}).Draw(t, "strkey")
+				} else if c.KeyTypes[j] == "binary" {
+					tuple[j] = rapid.SampledFrom([]string{"YQ==", "YWI=", "YWJj", "eHl6"}).Draw(t, "binkey")
 				} else if c.KeyTypes[j] == "decimal64" {
 					tuple[j] = rapid.SampledFrom([]string{"1.00000011", "1.00000012", "1.00000013", "1.00000014", "1", "0.00000002"}).Draw(t, "deckey")
 				} else {
